@@ -1,6 +1,9 @@
 package crypto
 
-import vr "github.com/MixinNetwork/mixin/zzrt"
+import (
+	"filippo.io/edwards25519"
+	vr "github.com/MixinNetwork/mixin/zzrt"
+)
 
 // Signature verdicts are uninterpreted predicates of (key, message, signature);
 // the calls are logged so that a harness can state which keys / message were checked.
@@ -54,6 +57,10 @@ func ZZStub_AggregateVerify(sig *Signature, publics []*Key, signers []int, messa
 	if sig == nil {
 		return zzAggErr{}
 	}
+	// the structural checks are the real ones (signer order, range, nil keys, point validity)
+	if _, _, err := collectAggregateSigners(publics, signers); err != nil {
+		return err
+	}
 	c := ZZVerifyCall{Msg: message, Agg: true, Signers: append([]int{}, signers...), Sigs: []Signature{*sig}}
 	var flat []byte
 	for _, k := range publics {
@@ -73,6 +80,14 @@ func ZZStub_AggregateVerify(sig *Signature, publics []*Key, signers []int, messa
 		return zzAggErr{}
 	}
 	return nil
+}
+
+// Point decoding: validity is an uninterpreted predicate of the bytes (the point itself is not used by the stubs).
+func ZZStub_decodePoint(src []byte) (*edwards25519.Point, error) {
+	if !vr.UFBool("checkkey", src) {
+		return nil, zzAggErr{}
+	}
+	return edwards25519.NewIdentityPoint(), nil
 }
 
 func ZZStub_ViewGhostOutputKey(P, a, R *Key, outputIndex uint64) *Key {
